@@ -132,7 +132,7 @@ def mutate_illformed(rng, t, B, D):
     """one of: unknown element, unknown sequence, span past the end, overlapping spans, delayed
     replication without factor, bad F/Y, dangling replication at the end"""
     t = list(t)
-    k = rng.choice(["unknown0", "unknown3", "pastend", "overlap", "nofactor", "dangling", "badfxy", "span+1", "dropfactor"])
+    k = rng.choice(["unknown0", "unknown3", "pastend", "overlap", "overlap3", "nofactor", "dangling", "badfxy", "span+1", "dropfactor"])
     if k == "unknown0":
         t.insert(rng.randrange(len(t) + 1), rng.choice([63999 - 63000 + 47190, 47001, 1250]))
     elif k == "unknown3":
@@ -144,6 +144,13 @@ def mutate_illformed(rng, t, B, D):
     elif k == "overlap":
         a, b, c = (pick_element(rng, B) for _ in range(3))
         t += [102002, 102000 + rng.choice([2, 3]), a, b] + ([c] if rng.random() < 0.5 else [])
+    elif k == "overlap3":
+        # three levels: the innermost span overruns its direct parent while the outermost stays open
+        a, b, c, d = (pick_element(rng, B) for _ in range(4))
+        if rng.random() < 0.5:
+            t += [105002, 102002, 103001, a, b, c] + ([d] if rng.random() < 0.5 else [])
+        else:
+            t += [107000, rng.choice(FACTORS), 103000, rng.choice(FACTORS), 103000, rng.choice(FACTORS), a, b, c] + ([d] if rng.random() < 0.5 else [])
     elif k == "nofactor":
         t += [101000, pick_element(rng, B), pick_element(rng, B)]
     elif k == "dangling":
